@@ -68,7 +68,7 @@ pub fn plan_for(prop: &str, tier: &str) -> Plan {
             p.scenarios = if q {
                 sc(&[("repl", 1), ("repl-i1-sz", 1), ("crash3", 1), ("crash2-async", 1), ("crash2-async-loose", 1), ("relead5", 1), ("relead5", 2), ("member-joint", 1), ("member", 1), ("fig8", 1)])
             } else {
-                sc(&[("repl", 1), ("repl-i1-sz", 1), ("crash3", 1), ("crash2-async", 1), ("crash2-async-loose", 1), ("relead5", 1), ("relead5", 2), ("member-joint", 1), ("member", 1), ("fig8", 1), ("repl-async", 1), ("repl-gc", 1), ("repl", 2), ("crash3-async", 1), ("member-joint", 2), ("member", 2), ("crash3-async-loose", 1), ("repl", 3)])
+                sc(&[("repl", 1), ("repl-i1-sz", 1), ("crash3", 1), ("crash2-async", 1), ("crash2-async-loose", 1), ("relead5", 1), ("relead5", 2), ("member-joint", 1), ("member", 1), ("fig8", 1), ("repl-async", 1), ("repl-gc", 1), ("repl-skip", 1), ("repl", 2), ("crash3-async", 1), ("member-joint", 2), ("member", 2), ("crash3-async-loose", 1), ("repl", 3)])
             };
             p.required_stats = vec![Stat::CommitAdvances, Stat::Crashes];
             p.explanation = "explicit-state exploration; at every leader commit advance: entry of own term and durable (on the simulated disks, not in raft-rs bookkeeping) on a majority of each half of the leader's configuration; non-leader commit never beyond a leader's".into();
@@ -104,7 +104,7 @@ pub fn plan_for(prop: &str, tier: &str) -> Plan {
             p.scenarios = if q {
                 sc(&[("read", 1), ("read-cc", 0), ("read", 2)])
             } else {
-                sc(&[("read", 1), ("read-cc", 0), ("read", 2), ("read", 3), ("read-cc", 1), ("read", 4), ("read", 5)])
+                sc(&[("read", 1), ("read-cc", 0), ("read", 2), ("read-nofwd", 2), ("read", 3), ("read-cc", 1), ("read", 4), ("read", 5)])
             };
             p.required_stats = vec![Stat::ReadStates];
             p.explanation = "explicit-state exploration; ghost max commit index over all nodes recorded when a read is issued; every ReadState in any Ready must be returned at the issuer with index >= that value".into();
@@ -133,7 +133,7 @@ pub fn plan_for(prop: &str, tier: &str) -> Plan {
             p.scenarios = if q {
                 sc(&[("flow", 0), ("flow-cap", 0), ("repl-i1-sz", 1), ("repl", 1), ("repl-div", 1), ("repl-mix", 1), ("flow-elect", 0), ("flow", 1), ("repl-batch", 1)])
             } else {
-                sc(&[("flow", 0), ("flow-cap", 0), ("repl-i1-sz", 1), ("repl", 1), ("repl-div", 1), ("repl-mix", 1), ("flow-elect", 0), ("flow", 1), ("repl-batch", 1), ("flow-div", 1), ("flow-batch", 1), ("flow-cap", 1), ("repl-mix", 3), ("repl", 2), ("flow", 2), ("repl-batch", 2)])
+                sc(&[("flow", 0), ("flow-cap", 0), ("repl-i1-sz", 1), ("repl", 1), ("repl-div", 1), ("repl-mix", 1), ("flow-elect", 0), ("flow", 1), ("repl-batch", 1), ("flow-div", 1), ("flow-batch", 1), ("repl-fetch", 1), ("flow-cap", 1), ("repl-mix", 3), ("repl", 2), ("flow", 2), ("repl-batch", 2)])
             };
             p.required_stats = vec![Stat::AppendsChecked, Stat::HeartbeatsChecked, Stat::WindowFull, Stat::ProbePaused, Stat::ProposalsAccepted, Stat::ProposalsRefused];
             p.explanation = "explicit-state exploration over all ack/reject/heartbeat-response orders incl. stale, duplicated and reordered ones and runtime window resizing; reference window model per (leader, follower) driven by generated and delivered messages; every generated MsgAppend / MsgHeartbeat checked for well-formedness against the leader's own log; ghost of uncommitted payload bytes".into();
@@ -170,7 +170,7 @@ pub fn plan_for(prop: &str, tier: &str) -> Plan {
             p.scenarios = if q {
                 sc(&[("elect", 1), ("fig8-div", 1), ("crash2", 1), ("crash2-async", 1), ("crash2-async-loose", 1), ("member-rm1", 0), ("member-joint", 1), ("lease", 1), ("snap", 0), ("snap-lazy", 0), ("snap-lag", 0), ("xfer-pipe", 0), ("read", 1), ("stale", 0), ("stale-lazy", 0), ("stale-async", 0), ("repl-i1-sz", 1), ("repl-mix", 0), ("xfer", 0), ("xfer-abort", 0), ("flow", 0), ("flow-cap", 0), ("member", 0)])
             } else {
-                sc(&[("elect", 1), ("fig8-div", 1), ("crash2", 1), ("crash2-async", 1), ("crash2-async-loose", 1), ("member-rm1", 0), ("member-joint", 1), ("lease", 1), ("snap", 0), ("snap-lazy", 0), ("snap-lag", 0), ("xfer-pipe", 0), ("read", 1), ("stale", 0), ("stale-lazy", 0), ("stale-async", 0), ("repl-i1-sz", 1), ("repl-mix", 0), ("xfer", 0), ("xfer-abort", 0), ("flow", 0), ("flow-cap", 0), ("member", 0), ("member-rm1-lazy", 1), ("member-rm1-async", 1), ("member-mix", 1), ("crash3", 1), ("repl-batch", 1), ("snap", 1), ("stale-lazy", 1), ("stale-async", 1), ("member", 1), ("crash3-lazy", 1), ("crash2-async-loose", 2), ("crash3-async", 1), ("fig8", 1), ("xfer", 1), ("flow", 1)])
+                sc(&[("elect", 1), ("fig8-div", 1), ("crash2", 1), ("crash2-async", 1), ("crash2-async-loose", 1), ("member-rm1", 0), ("member-joint", 1), ("lease", 1), ("snap", 0), ("snap-lazy", 0), ("snap-lag", 0), ("xfer-pipe", 0), ("read", 1), ("stale", 0), ("stale-lazy", 0), ("stale-async", 0), ("repl-i1-sz", 1), ("repl-mix", 0), ("xfer", 0), ("xfer-abort", 0), ("flow", 0), ("flow-cap", 0), ("member", 0), ("member-rm1-lazy", 1), ("member-rm1-async", 1), ("read-lease", 1), ("read-nofwd", 1), ("repl-fetch", 1), ("repl-gc", 1), ("elect-prio", 1), ("member-mix", 1), ("crash3", 1), ("repl-batch", 1), ("snap", 1), ("stale-lazy", 1), ("stale-async", 1), ("member", 1), ("crash3-lazy", 1), ("crash2-async-loose", 2), ("crash3-async", 1), ("fig8", 1), ("xfer", 1), ("flow", 1)])
             };
             p.required_stats = vec![Stat::BadMsgOffered, Stat::ReadyChecked, Stat::MsgsReleased];
             p.explanation = "every API call of every explored execution runs under catch_unwind: a panic, failed assert!/debug_assert!, fatal!, index out of bounds or arithmetic overflow (debug-assertions and overflow-checks are on) is a violation; in every state local-only message types and responses from non-members are offered to step() on a clone and must be rejected with the documented error without changing the state digest".into();
